@@ -154,11 +154,16 @@ type c16Opts struct {
 	foreign    bool // a restart event with another epoch arrives while the restart is in progress
 	loseOne    bool // one old server-side session is closed at any moment during the restart
 	noPath     bool // the new server has removed the socket file but is not listening yet: dialling fails
+	lateServer bool // the new server starts listening only after the hand-over has timed out; then the old server lets go
 }
 
 func c16Body(o c16Opts) func() {
 	return func() {
-		w := newHRWorld(o.n, 60*vrt.Second)
+		rebuild := 60 * vrt.Second
+		if o.lateServer {
+			rebuild = vrt.Second
+		}
+		w := newHRWorld(o.n, rebuild)
 		const epoch = 1024
 		// before: every pool answers through the old server
 		t := vrt.GoProc("warmup", 1, func() {
@@ -199,6 +204,14 @@ func c16Body(o c16Opts) func() {
 			hrDoneAt = vrt.VNow()
 			if o.newServer && !o.loseOne {
 				w.oldL.Close() // the old server lets go
+				oldClosed = true
+			}
+			if o.lateServer {
+				// the hand-over has timed out on both sides (the client's 2 s are over when the server's are); only now
+				// the new server is there, and the old one lets go: its sessions end, the pools have to follow
+				vrt.Sleep(500 * ms)
+				w.newL = w.startListener(3, 'N')
+				w.oldL.Close()
 				oldClosed = true
 			}
 		}))
@@ -247,6 +260,9 @@ func c16Body(o c16Opts) func() {
 		}
 		vrt.WaitThreads(ths...)
 		vrt.WaitIdle(3 * vrt.Second)
+		if o.lateServer {
+			vrt.WaitIdle(3 * vrt.Second) // rebuild interval 1 s + handshake
+		}
 		if hrErr != nil {
 			vrt.Failf("hotrestart-error", "Listener.HotRestart: %v", hrErr)
 		}
@@ -275,6 +291,10 @@ func c16Body(o c16Opts) func() {
 			case full:
 				if errs[i] != nil || tags[i] != 'N' {
 					vrt.Failf("not-moved", "after a completed hot restart pool probe %d answered by %q (err %v); every pool must be on the new server", i, tags[i], errs[i])
+				}
+			case o.lateServer:
+				if errs[i] != nil || tags[i] != 'N' {
+					vrt.Failf("not-moved", "the hand-over timed out, then the new server came up and the old one let go; %d virtual seconds later pool probe %d is answered by %q (err %v, pool session closed=%v epoch=%d, manager epoch %d): the pool must follow to the new server", 6, i, tags[i], errs[i], w.sm.pools[i].Session().IsClosed(), w.sm.pools[i].Session().epochID, ep)
 				}
 			case !o.newServer:
 				if errs[i] != nil || tags[i] != 'O' {
@@ -311,6 +331,8 @@ func TestVerif_C16(t *testing.T) {
 		mk(c16Opts{name: "dial-fails-no-listener", n: 1, newServer: false, noPath: true, traffic: true}, 1, 2),
 		mk(c16Opts{name: "foreign-epoch", n: 1, newServer: true, foreign: true}, 1, 2),
 		mk(c16Opts{name: "one-session-lost-midway", n: 2, newServer: true, loseOne: true}, 1, 2),
+		mk(c16Opts{name: "new-server-late-old-lets-go", n: 2, newServer: false, noPath: true, lateServer: true}, 1, 2),
+		mk(c16Opts{name: "new-server-late-traffic", n: 1, newServer: false, lateServer: true, traffic: true}, 1, 2),
 	})
 }
 
@@ -323,6 +345,10 @@ type c17Opts struct {
 	lose        string // "server-session" (the server closes one session) | "server-down" (listener + sessions gone, socket removed, back after 2.5 s) | "none"
 	hotRestart  bool   // a completed hot restart first; then the old server goes away (its sessions must NOT be rebuilt)
 	closeSM     bool   // SessionManager.Close at any moment
+	loseInSetup bool   // the loss happens before the explored part begins (the watcher is about to rebuild)
+	closeAfter  vrt.Duration // with closeSM: Close is called this long after the start (instead of "at any moment"); with racy timers: at any step from then on
+	racy        bool
+	failedHR    bool   // first a hot restart whose hand-over times out (no new server): the manager's epoch moves, the pools stay
 	traffic     bool
 }
 
@@ -365,16 +391,53 @@ func c17Body(o c17Opts) func() {
 				}
 			}
 		}
+		if o.failedHR {
+			// the new server has taken the socket path away but does not listen before the hand-over has timed out
+			t := vrt.GoProc("admin", 2, func() {
+				os.Remove(w.path)
+				if err := w.oldL.HotRestart(55); err != nil {
+					vrt.Failf("harness", "HotRestart: %v", err)
+				}
+				for !w.oldL.IsHotRestartDone() {
+					vrt.Sleep(100 * ms)
+				}
+				vrt.Sleep(500 * ms)
+				w.newL = w.startListener(3, 'N')
+			})
+			vrt.Quiet(true)
+			vrt.WaitThreads(t)
+			vrt.WaitIdle(vrt.Second)
+			vrt.Quiet(false)
+			if st, ep, _ := w.smState(); st == hotRestartState || ep != 55 {
+				vrt.Failf("harness", "failed hot restart in the setup phase: manager state %d epoch %d", st, ep)
+			}
+			for i, p := range w.sm.pools {
+				if p.Session() != before[i] {
+					vrt.Failf("harness", "the hand-over was meant to fail in the setup phase, pool %d has a new session", i)
+				}
+			}
+		}
 		switch o.lose {
 		case "server-session":
+			if o.loseInSetup {
+				vrt.Quiet(true)
+			}
 			ths = append(ths, vrt.GoProc("lose", 2, func() {
-				vrt.AnyMoment()
+				if !o.loseInSetup {
+					vrt.AnyMoment()
+				}
 				ss := w.serverSessions(w.oldL)
 				if len(ss) > 0 {
 					lostAt = vrt.VNow()
 					ss[0].Close()
 				}
 			}))
+			if o.loseInSetup {
+				vrt.WaitThreads(ths...)
+				vrt.WaitIdle(0)
+				vrt.Quiet(false)
+				ths = nil
+			}
 		case "server-down":
 			ths = append(ths, vrt.GoProc("server-down", 2, func() {
 				vrt.AnyMoment()
@@ -412,7 +475,11 @@ func c17Body(o c17Opts) func() {
 		}
 		if o.closeSM {
 			ths = append(ths, vrt.GoProc("sm-closer", 1, func() {
-				vrt.AnyMoment()
+				if o.closeAfter > 0 {
+					vrt.Sleep(o.closeAfter)
+				} else {
+					vrt.AnyMoment()
+				}
 				w.sm.Close()
 			}))
 		}
@@ -428,8 +495,30 @@ func c17Body(o c17Opts) func() {
 			}
 			for i, p := range w.sm.pools {
 				if !p.Session().IsClosed() {
-					vrt.Failf("not-closed", "pool %d still holds an open session after SessionManager.Close", i)
+					vrt.Failf("not-closed", "pool %d still holds an open session after SessionManager.Close (a session established while Close was running)", i)
 				}
+			}
+			// nothing of the manager lives on at the server either, and the manager hands out no stream any more
+			open := 0
+			for _, l := range []*Listener{w.oldL, w.newL} {
+				if l == nil {
+					continue
+				}
+				for _, s := range w.serverSessions(l) {
+					if !s.IsClosed() {
+						open++
+					}
+				}
+			}
+			if open != 0 {
+				vrt.Failf("not-closed", "%d sessions of the closed manager are still open at the server", open)
+			}
+			var gerr error
+			var gst *Stream
+			tg := vrt.GoProc("after-close", 1, func() { gst, gerr = w.sm.GetStream() })
+			vrt.WaitThreads(tg)
+			if gerr == nil {
+				vrt.Failf("not-closed", "GetStream on a closed SessionManager returned a stream (%v)", gst != nil)
 			}
 			vrt.Outcome("closed")
 			return
@@ -486,7 +575,7 @@ func TestVerif_C17(t *testing.T) {
 		defer func() { fmt.Printf("SWEEPLOG %v\n", sweepLog) }()
 	}
 	mk := func(o c17Opts, b, bt int) bScenario {
-		return bScenario{Name: o.name, Bound: b, BoundT: bt, Body: c17Body(o), Live: true}
+		return bScenario{Name: o.name, Bound: b, BoundT: bt, Body: c17Body(o), Live: true, Racy: o.racy}
 	}
 	runBScenarios(t, "C17", []bScenario{
 		mk(c17Opts{name: "server-session-lost", n: 1, lose: "server-session", traffic: true}, 1, 2),
@@ -496,5 +585,7 @@ func TestVerif_C17(t *testing.T) {
 		mk(c17Opts{name: "old-server-gone-after-hot-restart", n: 2, lose: "server-down", hotRestart: true}, 1, 2),
 		mk(c17Opts{name: "close-manager-vs-loss", n: 1, lose: "server-session", closeSM: true}, 1, 2),
 		mk(c17Opts{name: "close-manager-idle", n: 2, lose: "none", closeSM: true, traffic: true}, 1, 2),
+		mk(c17Opts{name: "close-manager-during-rebuild", n: 1, lose: "server-session", loseInSetup: true, closeSM: true, closeAfter: 1001 * ms, racy: true}, 1, 2),
+		mk(c17Opts{name: "loss-after-failed-hot-restart", n: 2, lose: "server-session", failedHR: true, traffic: true}, 1, 2),
 	})
 }
